@@ -40,6 +40,22 @@ CurSingles == {E("cur", f, x) : f \in Range(Cur1 \o Cur2 \o Cur0), x \in Range(C
 PairsOf(fs) == {E2("cur2", fs[q[1]], x, fs[q[2]], y) : q \in {r \in (DOMAIN fs) \X (DOMAIN fs) : r[1] <= r[2]}, x \in Range(BigVals), y \in Range(BigVals)}
 CurPairs == PairsOf(Cur1 \o Cur0) \cup PairsOf(Cur2 \o Cur0)    \* (unordered pairs)
 
+\* ---- complements: the overflow pre-checks pass by the narrowest margin ---------------------------------------------------------
+\* validateCurrencyOverflow (v1) and validateV2CurrencyOverflow (v2) add up a fixed list of members of the transaction and reject
+\* the transaction if the sum exceeds 2^128-1; later code then adds currency values without checking.  PreCheck1 / PreCheck2 are
+\* those lists (v2: every contract also contributes its tax, a function of renter + host value).  For each listed member m the
+\* extreme is  "rest": m := the largest value for which the pre-checked sum is still <= 2^128-1  (2^128-1 minus everything else
+\* the pre-check counts), and that value -1 and +1.  With "rest" the pre-check passes and ANY later sum that includes something
+\* the pre-check leaves out (parent values, rollovers on the input side, claim outputs, taxes, fees, payouts) overflows.
+PreCheck1 == << <<1, "sco.val", "sco">>, <<1, "fc.pay", "fc">>, <<1, "fc.vo.val", "fc">>, <<1, "fc.mo.val", "fc">>, <<1, "rev.vo.val", "rev">>, <<1, "rev.mo.val", "rev">> >>
+PreCheck2 == << <<2, "fee", "">>, <<2, "sco.val", "sco">>, <<2, "fc.r", "fc">>, <<2, "fc.h", "fc">>, <<2, "fc.mh", "fc">>, <<2, "fc.coll", "fc">>,
+                <<2, "rev.r", "rev">>, <<2, "rev.h", "rev">>, <<2, "rev.mh", "rev">>, <<2, "rev.coll", "rev">>,
+                <<2, "ren.fr", "res:renew">>, <<2, "ren.fh", "res:renew">>, <<2, "ren.rr", "res:renew">>, <<2, "ren.hr", "res:renew">>,
+                <<2, "ren.nc.r", "res:renew">>, <<2, "ren.nc.h", "res:renew">>, <<2, "ren.nc.mh", "res:renew">>, <<2, "ren.nc.coll", "res:renew">> >>
+\* members the v1 pre-check leaves out but validateSiacoins adds with a check of its own: the same margin from their side
+NotPreChecked1 == << <<1, "fee", "">> >>
+ComplementCat == {E("complement", f, x) : f \in Range(PreCheck1 \o PreCheck2 \o NotPreChecked1), x \in {"rest-1", "rest", "rest+1"}}
+
 \* ---- Merkle proofs and leaf indices of elements, storage proofs ---------------------------
 Elems == << <<2, "sci.parent", "sci">>, <<2, "sfi.parent", "sfi">>, <<2, "rev.parent", "rev">>, <<2, "res.parent", "res">>, <<2, "res.proofindex", "res:proof">>,
             <<1, "supp.sci", "sci">>, <<1, "supp.sfi", "sfi">>, <<1, "supp.rev", "rev">>, <<1, "supp.sp", "res">>, <<1, "supp.expiring", "">> >>
@@ -50,7 +66,7 @@ ProofCat == {E("proof", f, x) : f \in Range(Proofs), x \in Range(ProofVals)} \cu
 
 \* ---- v1 signatures: covered fields, key indices, unlock conditions ---------------------------
 CFLists == <<"SiacoinInputs", "SiacoinOutputs", "FileContracts", "FileContractRevisions", "StorageProofs", "SiafundInputs", "SiafundOutputs", "MinerFees", "ArbitraryData", "Signatures">>
-CFVals == <<"len", "len+1", "2^63", "2^64-1", "dup", "unsorted", "40000x0", "all+len">>
+CFVals == <<"len", "len+1", "2^63", "2^64-1", "dup", "unsorted", "16000x0", "all+len">>
 SigNeed == "sig"      \* a v1 transaction with at least one signature
 CoveredCat == {[fam |-> "covered", ver |-> 1, t |-> l, need |-> SigNeed, x |-> x, t2 |-> w, need2 |-> "", x2 |-> ""] : l \in Range(CFLists), x \in Range(CFVals), w \in {"whole", "partial"}}
 SigCat == {E("sig", <<1, "PublicKeyIndex", SigNeed>>, x) : x \in {"len", "1", "2^63", "2^64-1"}} \cup
@@ -75,10 +91,25 @@ SuppCat == {E("supp", <<1, t, "">>, x) : t \in {"sci", "sfi", "rev", "sp", "expi
            {E("supp", <<2, "txs", "">>, x) : x \in {"long", "expiring-extra"}}
 
 \* ---- spend policies, resolutions, eras --------------------------------------------------------
+\* DECODABILITY.  The property quantifies over DECODABLE transactions and blocks: every value a mutant carries must be one that
+\* some decoder of core (DecodeFrom or UnmarshalJSON) hands over.  Plain numbers, byte strings, lists and list lengths always are.
+\* The extremes below are not plain; for each, the decoder that produces it:
+\*   nil-type              JSON: {"siacoinInputs":[{"satisfiedPolicy":{}}]} unmarshals without error and leaves Policy.Type nil
+\*                         (family "decoded" carries such documents verbatim); DecodeFrom never does
+\*   depth33, depth200     JSON only: the policy text "thresh(1,[thresh(1,[...]])" has no depth limit; DecodeFrom stops at depth 32
+\*   arity256, arity1000,  JSON only: the text form lists any number of sub-policies; the binary form counts them in one byte
+\*   1025-leaves
+\*   every other policy /  both decoders
+\*   unlock-condition entry
+\* The harness does not take this on trust: a mutant of the families "policy" and "uc" is executed only if the changed transaction
+\* survives a round trip through one of the two codecs (encode, decode, encode again: same bytes); nil-type, which no ENCODER
+\* accepts, is admitted on the strength of the "decoded" family, which shows the decoder producing it.
+\* NOT in the catalogue, because no decoder produces them: a nil V2FileContractResolution.Resolution (UnmarshalJSON rejects an
+\* absent / unknown type, DecodeFrom an unknown tag), typed nil pointers inside interfaces.
 PolicyCat == {E("policy", <<2, t, t>>, x) : t \in {"sci", "sfi"},
                  x \in {"depth32", "depth33", "depth200", "arity255", "arity256", "arity1000", "n255-of-1", "n0-of-0", "no-sigs", "one-extra-sig", "1000-extra-sigs",
                         "one-extra-preimage", "1000-extra-preimages", "nil-type", "opaque", "uc-0-of-0", "uc-need-2^64-1", "hash-no-preimage", "1024-leaves", "1025-leaves"}}
-ResCat == {E("resolution", <<2, "type", "res">>, x) : x \in {"to-proof", "to-expiration", "to-renewal", "nil", "typed-nil-proof", "typed-nil-renewal", "typed-nil-expiration"}}
+ResCat == {E("resolution", <<2, "type", "res">>, x) : x \in {"to-proof", "to-expiration", "to-renewal"}}
 EraCat == {E("era", <<0, "block", "">>, x) : x \in {"v2data-present", "v2data-nil", "v2data-empty", "v2height-0", "v2height+1", "v2height-2^64-1", "commitment-zero"}} \cup
           {E("era", <<1, "txn", "">>, "as-only-v2-era")} \cup {E("era", <<2, "txn", "">>, "in-block-without-v2data")}
 
@@ -124,7 +155,7 @@ DecodedCat == {E("decoded", <<2, "json", "">>, x) : x \in {"{\"siacoinInputs\":[
               {E("decoded", <<1, "json", "">>, x) : x \in {"{\"siacoinInputs\":[{}]}", "{\"siafundInputs\":[{}]}", "{\"signatures\":[{}]}", "{\"fileContractRevisions\":[{}]}", "{\"storageProofs\":[{}]}",
                    "{\"fileContracts\":[{}]}", "{\"minerFees\":[\"0\"]}", "{\"arbitraryData\":[null]}", "{\"signatures\":[{\"coveredFields\":{\"signatures\":[0,0,1]}}]}"}}
 
-Catalogue == LifecycleCat \cup ConfuseCat \cup DecodedCat \cup CurSingles \cup CurPairs \cup ProofCat \cup CoveredCat \cup SigCat \cup ParentCat \cup SuppCat \cup PolicyCat \cup ResCat \cup EraCat \cup SizeCat \cup WinCat \cup ShapeCat
+Catalogue == ComplementCat \cup LifecycleCat \cup ConfuseCat \cup DecodedCat \cup CurSingles \cup CurPairs \cup ProofCat \cup CoveredCat \cup SigCat \cup ParentCat \cup SuppCat \cup PolicyCat \cup ResCat \cup EraCat \cup SizeCat \cup WinCat \cup ShapeCat
 Families == {e.fam : e \in Catalogue}
 
 VARIABLE step
